@@ -9,13 +9,17 @@ cd "$WT" || exit 2
 git checkout -q -- . && git clean -fdq
 demo_cmd=$(python3 -c "import json;print(json.load(open('$SRC/meta.json'))['demo_cmd'])")
 # place demo files
-placed=()
+placed=(); srcs=()
 while read -r line; do
   [ -z "$line" ] && continue
-  rel=$(echo "$line" | grep -oE '[A-Za-z0-9_./-]+_test\.go|[A-Za-z0-9_./-]+\.go' | tail -1)
+  # "<repo-relative path>" or "<file in the deliverable> -> <repo-relative path>"
+  rel=$(echo "$line" | grep -oE '[A-Za-z0-9_./-]+\.go' | tail -1)
+  src=$(echo "$line" | grep -oE '[A-Za-z0-9_./-]+\.go' | head -1)
   [ -z "$rel" ] && continue
   base=$(basename "$rel")
-  if [ -f "$SRC/$base" ]; then mkdir -p "$(dirname "$rel")"; cp "$SRC/$base" "$rel"; placed+=("$rel"); fi
+  from=""
+  if [ -f "$SRC/$base" ]; then from="$SRC/$base"; elif [ -f "$SRC/$(basename "$src")" ]; then from="$SRC/$(basename "$src")"; fi
+  if [ -n "$from" ]; then mkdir -p "$(dirname "$rel")"; cp "$from" "$rel"; placed+=("$rel"); srcs+=("$from"); fi
 done < "$SRC/demo_path.txt"
 echo "placed: ${placed[*]}"
 run_demo() { (cd "$WT" && eval "$(echo "$demo_cmd" | sed -E 's#^cd [^&]+&& *##')" >/tmp/mut/out/$P/$K/demo.$1.log 2>&1); echo $?; }
@@ -31,7 +35,7 @@ for f in "${placed[@]}"; do rm -f "$f"; done
 git clean -fdq
 echo "RESULT $P-$K: build=$r_build demo_clean=$r_clean demo_patched=$r_patch pkgtests($pkgs)=$r_tests"
 if [ "$r_build" = 0 ] && [ "$r_clean" = 0 ] && [ "$r_patch" != 0 ] && [ "$r_tests" = 0 ]; then
-  mkdir -p "$DST"; cp "$SRC/patch.diff" "$DST/"; for f in "${placed[@]}"; do cp "$SRC/$(basename "$f")" "$DST/"; done; cp "$SRC/demo_path.txt" "$DST/"
+  mkdir -p "$DST"; cp "$SRC/patch.diff" "$DST/"; for f in "${srcs[@]}"; do cp "$f" "$DST/"; done; cp "$SRC/demo_path.txt" "$DST/"
   python3 - "$SRC/meta.json" "$DST/meta.json" "$pkgs" <<'PY'
 import json,sys
 m=json.load(open(sys.argv[1]))
